@@ -98,8 +98,50 @@ impl Strategy {
     ) -> Result<(), NutsError> {
         if let StepSizeAdaptMethod::Fixed(step_size) = self.options.adapt_options.method {
             *hamiltonian.step_size_mut() = step_size;
+            #[cfg(nuts_rs_verif)]
+            crate::verif::emit("search", || {
+                crate::verif::json!({"ev": "search_end", "outcome": "fixed", "reinit": false,
+                    "step": crate::verif::bits(hamiltonian.step_size())})
+            });
             return Ok(());
         };
+        #[cfg(nuts_rs_verif)]
+        crate::verif::emit("search", || {
+            crate::verif::json!({"ev": "search_start",
+                "initial": crate::verif::bits(self.options.initial_step),
+                "est": crate::verif::bits(match self.adaptation.as_ref() {
+                    Some(Either::Left(a)) => a.current_step_size(),
+                    Some(Either::Right(a)) => a.current_step_size(),
+                    None => f64::NAN,
+                }),
+                "target": crate::verif::bits(self.options.target_accept)})
+        });
+        #[cfg(nuts_rs_verif)]
+        macro_rules! verif_try {
+            ($n:expr, $dir:expr, $res:expr, $acc:expr) => {
+                crate::verif::emit("search", || {
+                    crate::verif::json!({"ev": "search_try", "n": $n, "dir": $dir,
+                        "res": match $res { LeapfrogResult::Ok(_) => "ok", LeapfrogResult::Divergence(_) => "div",
+                            LeapfrogResult::Err(_) => "err" },
+                        "acc": crate::verif::bits($acc),
+                        "step": crate::verif::bits(hamiltonian.step_size())})
+                });
+            };
+        }
+        #[cfg(nuts_rs_verif)]
+        macro_rules! verif_end {
+            ($outcome:expr, $reinit:expr) => {
+                crate::verif::emit("search", || {
+                    crate::verif::json!({"ev": "search_end", "outcome": $outcome, "reinit": $reinit,
+                        "est": crate::verif::bits(match self.adaptation.as_ref() {
+                            Some(Either::Left(a)) => a.current_step_size(),
+                            Some(Either::Right(a)) => a.current_step_size(),
+                            None => f64::NAN,
+                        }),
+                        "step": crate::verif::bits(hamiltonian.step_size())})
+                });
+            };
+        }
         let mut state = hamiltonian.init_state(math, position)?;
         hamiltonian.initialize_trajectory(math, &mut state, true, rng)?;
 
@@ -119,11 +161,15 @@ impl Strategy {
             &mut collector,
         );
 
+        #[cfg(nuts_rs_verif)]
+        verif_try!(0, "F", &state_next, collector.mean.current());
         let state_next = match state_next {
             LeapfrogResult::Err(err) => return Err(NutsError::LogpFailure(err.into())),
             other => other,
         };
         let LeapfrogResult::Ok(_) = state_next else {
+            #[cfg(nuts_rs_verif)]
+            verif_end!("first_failed", false);
             return Ok(());
         };
 
@@ -134,7 +180,13 @@ impl Strategy {
             Direction::Backward
         };
 
+        #[cfg(nuts_rs_verif)]
+        let mut verif_n = 0u64;
         for _ in 0..100 {
+            #[cfg(nuts_rs_verif)]
+            {
+                verif_n += 1;
+            }
             let mut collector = AcceptanceRateCollector::new();
             collector.register_init(math, &state, options);
             let state_next = hamiltonian.leapfrog(
@@ -146,12 +198,17 @@ impl Strategy {
                 1000.0,
                 &mut collector,
             );
+            #[cfg(nuts_rs_verif)]
+            verif_try!(verif_n, match dir { Direction::Forward => "F", Direction::Backward => "B" },
+                &state_next, collector.mean.current());
             let state_next = match state_next {
                 LeapfrogResult::Err(err) => return Err(NutsError::LogpFailure(err.into())),
                 other => other,
             };
             let LeapfrogResult::Ok(_) = state_next else {
                 *hamiltonian.step_size_mut() = self.options.initial_step;
+                #[cfg(nuts_rs_verif)]
+                verif_end!("fallback", false);
                 return Ok(());
             };
             let accept_stat = collector.mean.current();
@@ -173,6 +230,8 @@ impl Strategy {
                                 );
                             }
                         }
+                        #[cfg(nuts_rs_verif)]
+                        verif_end!("found", true);
                         return Ok(());
                     }
                     *hamiltonian.step_size_mut() *= 2.;
@@ -195,6 +254,8 @@ impl Strategy {
                                 );
                             }
                         }
+                        #[cfg(nuts_rs_verif)]
+                        verif_end!("found", true);
                         return Ok(());
                     }
                     *hamiltonian.step_size_mut() /= 2.;
@@ -203,6 +264,8 @@ impl Strategy {
         }
         // If we don't find something better, use the specified initial value
         *hamiltonian.step_size_mut() = self.options.initial_step;
+        #[cfg(nuts_rs_verif)]
+        verif_end!("exhausted", false);
         Ok(())
     }
 
